@@ -17,7 +17,7 @@ func init() {
 	register(&Prop{
 		ID:         "C06",
 		Title:      "Condition, filter and key expressions evaluate per DynamoDB semantics",
-		Decided:    "the clauses that are visible in the shape of the code: (R1) the precedence table orders OR < AND < NOT < every comparator, NOT's operand and every infix operator's right operand are parsed at the operator's own level (left-associative), and the set of tokens with an infix handler equals the set with a precedence; (R2) in each comparator function (a switch over the operator string with the six comparator labels) the case for label c returns left ⊙ right with the Go operator that c denotes, operands in (left,right) order; (R3) BETWEEN is min <= v AND v <= max for each comparable type; (R4) exhaustiveness: Eval has a case for every node kind the condition parser can build, every registered infix token is handled, the function registry is exactly the six condition and two update functions with the right ForUpdate flags, the type-name table has the ten types and the comparable types are N, S, B; (R5) existence of an attribute is decided with the undefined test, never with the NULL type tag (a NULL-typed attribute exists); (R6) evaluating a condition reaches no object or environment mutator and never writes the caller's item; (R7) with a missing operand '=' is false and '<>' is true; (R8) two evaluator objects are compared by pointer identity only against the process-wide singletons (TRUE, FALSE, UNDEFINED) or when both are known booleans – an identity shortcut elsewhere makes two different missing operands equal and two equal numbers different; (R9) in the evaluators of IN and BETWEEN every use of the left operand's value in a comparison, equality or containment call is dominated by the not-undefined side of the undefined test of that value: a missing attribute makes the condition false, it never equals another missing attribute; (R10) the environment is filled with the stored item first and the request's expression attribute values second, in both interpreters' entry points: a stored attribute that happens to be named like a placeholder (\":owner\") cannot replace the value the request supplied; (R11) attribute_type, = and <> see the type an operand was written with only if the adapter keeps it: every member case of the SDK v2 → internal conversion applies to every value of that member and sets the member's own type field (= C10.R7b); (R12) the expression parsed before a binary operator is stored as the node's Left and the one parsed after it as Right, and the comparator functions receive Eval(node.Left) as their left and Eval(node.Right) as their right parameter (through helpers, operand records and dispatching methods); (R13) begins_with(a, b) is decided by HasPrefix(a, b) – or len(a) >= len(b) && a[:len(b)] == b – and contains on S/B by Contains(a, b), operands in that order.",
+		Decided:    "the clauses that are visible in the shape of the code: (R1) the precedence table orders OR < AND < NOT < every comparator, NOT's operand and every infix operator's right operand are parsed at the operator's own level (left-associative), and the set of tokens with an infix handler equals the set with a precedence; (R2) in each comparator function (a switch over the operator string with the six comparator labels) the case for label c returns left ⊙ right with the Go operator that c denotes, operands in (left,right) order; (R3) BETWEEN is min <= v AND v <= max for each comparable type; (R4) exhaustiveness: Eval has a case for every node kind the condition parser can build, every registered infix token is handled, the function registry is exactly the six condition and two update functions with the right ForUpdate flags, the type-name table has the ten types and the comparable types are N, S, B; (R5) existence of an attribute is decided with the undefined test, never with the NULL type tag (a NULL-typed attribute exists); (R6) evaluating a condition reaches no object or environment mutator and never writes the caller's item; (R7) with a missing operand '=' is false and '<>' is true; (R8) two evaluator objects are compared by pointer identity only against the process-wide singletons (TRUE, FALSE, UNDEFINED) or when both are known booleans – an identity shortcut elsewhere makes two different missing operands equal and two equal numbers different; (R9) in the evaluators of IN and BETWEEN every use of the left operand's value in a comparison, equality or containment call is dominated by the not-undefined side of the undefined test of that value: a missing attribute makes the condition false, it never equals another missing attribute; (R10) the environment is filled with the stored item first and the request's expression attribute values second, in both interpreters' entry points: a stored attribute that happens to be named like a placeholder (\":owner\") cannot replace the value the request supplied; (R11) attribute_type, = and <> see the type an operand was written with only if the adapter keeps it: every member case of the SDK v2 → internal conversion applies to every value of that member and sets the member's own type field (= C10.R7b); (R12) the expression parsed before a binary operator is stored as the node's Left and the one parsed after it as Right, and the comparator functions receive Eval(node.Left) as their left and Eval(node.Right) as their right parameter (through helpers, operand records and dispatching methods); (R13) begins_with(a, b) is decided by HasPrefix(a, b) – or len(a) >= len(b) && a[:len(b)] == b – and contains on S/B by Contains(a, b), operands in that order; (R14) empty containers keep their type on the way into the evaluator (= C10.R11).",
 		NotDecided: "the truth value of an arbitrary expression on an arbitrary item: structural equality of documents, set semantics, IN, contains, size, begins_with results, independence from attribute order – all value-level.",
 		Rules: []RuleDef{
 			{ID: "R1", Desc: "precedence table and its use by the Pratt parser (T-TABLE)", Run: c06R1},
@@ -33,6 +33,7 @@ func init() {
 			{ID: "R11", Desc: "an operand keeps its type on the way into the engine: every SDK member case sets its own type field for every value (= C10.R7b)", Run: aliasRule("R11", c10R7, func(c string) bool { return strings.HasPrefix(c, "v2.") })},
 			{ID: "R12", Desc: "the comparator functions receive the evaluated left operand of the parsed comparison on the left and the right one on the right (T-FLOW, eval-of)", Run: c06R12},
 			{ID: "R13", Desc: "begins_with and contains on strings/binaries are the library prefix/substring predicates with the operands in order (or the explicit length-guarded comparison) (T-TABLE)", Run: c06R13},
+			{ID: "R14", Desc: "an operand that is an empty map or list reaches the evaluator as a value of its type (= C10.R11): an attribute value with no type set is rejected by the evaluator and the request panics", Run: aliasRule("R14", c10R11, nil)},
 		},
 	})
 }
